@@ -183,7 +183,11 @@ def run_pair(ctx, ops, harness, tag="ops", timeout=1200, driver_args=()):
     if g and g[-1] == "":
         g.pop()
     if rc != 0:
-        g.append(f"X(harness exit {rc}: {se.strip().splitlines()[-1][:200] if se.strip() else ''})")
+        if "all goroutines are asleep - deadlock" in se or rc == -9:
+            g.append("HANG")          # the Go runtime reports the self-deadlock (or the watchdog expired)
+        else:
+            tail = [l for l in se.strip().splitlines() if l.strip()]
+            g.append(f"X(harness exit {rc}: {tail[0][:160] if tail else ''})")
     # the model reads the annotated lines (op + now= / choice= oracles written by the harness);
     # lines the harness never reached (crash) are fed unannotated
     ann = open(annf).read().split("\n") if os.path.exists(annf) else []
@@ -315,6 +319,27 @@ def corpus_ops(pid, suffix="ops"):
     if not os.path.exists(fn):
         return []
     return [l.strip() for l in open(fn) if l.strip() and not l.startswith("#")]
+
+
+def replay_known_findings(ctx, harness, harness_ft=None):
+    """Each listed finding is replayed on the implementation: if it still shows the recorded wrong
+    behaviour (which is also what the model predicts), print KNOWN-FINDING; if the implementation no
+    longer behaves as recorded the entry is stale: that is a divergence from the model => violation."""
+    for f in load_findings(ctx.pid):
+        if f.get("status") != "known":
+            continue
+        w = f["witness"]
+        h = harness_ft if (w.get("faketime") and harness_ft) else harness
+        g, m = run_pair(ctx, w["ops"], h, "finding-" + f["id"], timeout=w.get("timeout", 60))
+        ctx.cov["evaluations"] += len(w["ops"])
+        last_g = g[len(w["ops"]) - 1] if len(g) >= len(w["ops"]) else (g[-1] if g else "<none>")
+        last_m = m[len(w["ops"]) - 1] if len(m) >= len(w["ops"]) else "<none>"
+        if last_g == w["impl"] and last_m == w["impl"]:
+            ctx.known.append(f"KNOWN-FINDING: property={ctx.pid} {f['id']} {f['what']}")
+        else:
+            record_violation(ctx, "finding-changed", {"finding": f["id"], "ops": w["ops"], "impl": g, "model": m,
+                                                     "recorded": w["impl"], "faketime": bool(w.get("faketime")),
+                                                     "explain": "a recorded known finding no longer reproduces as recorded: implementation and model disagree or both changed"})
 
 
 def load_findings(pid):
